@@ -1,4 +1,4 @@
-From AQ Require Import lib.Base model.H3Parse proofs.H3Chunk proofs.H3Split.
+From AQ Require Import lib.Base model.H3Parse proofs.H3Chunk proofs.H3Split proofs.H3Loop proofs.H3Recv proofs.H3Fin proofs.H3Uni.
 
 (* On the code as pinned, the events of a request stream depend on the chunking: three byte strings for which
    whole delivery and a two-chunk delivery give different normalised events (end-of-stream marker). *)
@@ -35,7 +35,121 @@ Theorem chunking_witnesses_agree_when_fixed :
 Proof. exact chunking_witnesses_fixed. Qed.
 Print Assumptions chunking_witnesses_agree_when_fixed.
 
-(* PARTIAL (see docs/C14.md): the pieces of "feeding a ++ b = feeding a then b" that are proved for ALL inputs,
+(* FULL STRENGTH, request / push streams, model of the patched code (C14-fix-1 = fx_trunc, C14-fix-2 = fx_endmark; the
+   other flags are arbitrary): for EVERY stream state a delivery can leave behind (stream_ok: receiving side not ended;
+   fresh streams qualify, and the property is preserved by every delivery: stream_ok_preserved), EVERY byte string
+   cut into EVERY number of deliveries, FIN on the last delivery (an empty last part = FIN as a delivery of its own)
+   or no FIN, EVERY QPACK / validation oracle (including one that blocks: the oracle is the same function in both
+   runs, i.e. no encoder-stream data arrives in between): the chunked delivery and the whole delivery give the same
+   normalised events, the same final parser state, or the same connection error code (requiv). *)
+Theorem chunking_independent :
+  forall fx O cl, fx_trunc fx = true -> fx_endmark fx = true ->
+  forall parts st0 first fin, stream_ok st0 ->
+  requiv (feed fx O cl st0 (mk_chunks first parts fin)) (rq_recv fx O cl st0 (first ++ concat parts) fin).
+Proof. exact chunks_whole. Qed.
+Print Assumptions chunking_independent.
+
+(* hence any two splittings of the same byte string are indistinguishable *)
+Theorem chunking_independent_any_two_splittings :
+  forall fx O cl, fx_trunc fx = true -> fx_endmark fx = true ->
+  forall st0 f1 p1 f2 p2 fin, stream_ok st0 -> f1 ++ concat p1 = f2 ++ concat p2 ->
+  requiv (feed fx O cl st0 (mk_chunks f1 p1 fin)) (feed fx O cl st0 (mk_chunks f2 p2 fin)).
+Proof. exact chunks_any. Qed.
+Print Assumptions chunking_independent_any_two_splittings.
+
+(* the hypothesis: true of a new stream and kept by every delivery without FIN *)
+Theorem chunking_hypothesis_fresh : forall sid, stream_ok (new_stream sid).
+Proof. exact stream_ok_fresh. Qed.
+Print Assumptions chunking_hypothesis_fresh.
+
+Theorem chunking_hypothesis_preserved :
+  forall fx O cl, fx_trunc fx = true -> fx_endmark fx = true ->
+  forall st0 d e st', stream_ok st0 -> rq_recv fx O cl st0 d false = RVal e st' -> stream_ok st'.
+Proof. exact stream_ok_preserved. Qed.
+Print Assumptions chunking_hypothesis_preserved.
+
+(* the two halves: bytes cut in two without FIN; FIN together with the last bytes = FIN on its own afterwards *)
+Theorem chunking_independent_two_deliveries :
+  forall fx O cl, fx_trunc fx = true -> fx_endmark fx = true ->
+  forall st0 a b fin, stream_ok st0 ->
+  requiv (rq_recv fx O cl st0 (a ++ b) fin) (rbind (rq_recv fx O cl st0 a false) (fun s => rq_recv fx O cl s b fin)).
+Proof. exact two_chunks. Qed.
+Print Assumptions chunking_independent_two_deliveries.
+
+Theorem chunking_independent_fin_late :
+  forall fx O cl, fx_trunc fx = true -> fx_endmark fx = true ->
+  forall st0 a, stream_ok st0 ->
+  requiv (rq_recv fx O cl st0 a true) (rbind (rq_recv fx O cl st0 a false) (fun s => rq_recv fx O cl s [] true)).
+Proof. exact fin_late. Qed.
+Print Assumptions chunking_independent_fin_late.
+
+(* the frame loop itself: running it on x ++ b = running it on x, then resuming with b *)
+Theorem frame_loop_split :
+  forall fx O cl, fx_trunc fx = true -> fx_endmark fx = true ->
+  forall f st x b evs, LH st -> measure st (x ++ b) < Z.of_nat f ->
+  requiv (rq_loop f fx O cl false st (x ++ b) evs) (resume fx O cl b (rq_loop f fx O cl false st x evs)).
+Proof. exact loop_split. Qed.
+Print Assumptions frame_loop_split.
+
+(* UNIDIRECTIONAL STREAMS (control, push, WebTransport, QPACK encoder / decoder, unknown types), model of the patched code.
+   uni_full = what _receive_stream_data_uni (plus the hand-over of a push stream to the request / push parser) does to
+   one stream and the connection for one delivery: events, stream, connection (settings, max push id, peer stream ids),
+   ids the QPACK decoder reports as unblocked; uni_is_receive_stream_data ties it to the model's _receive_stream_data.
+   For EVERY stream state with stream_ok, connection, byte strings a, b: delivering a ++ b = delivering a, then b;
+   with FIN on the last delivery for every stream that is not the control stream.  Hypotheses on the QPACK oracle
+   (external library): feeding x ++ y to the encoder / decoder stream = feeding x, then y (ds_seq, enc_seq; satisfiable:
+   seq_oracle_example in proofs/H3Uni.v), same oracle in both runs. *)
+Theorem chunking_independent_uni :
+  forall fx O st c a b fin,
+  fx_trunc fx = true -> fx_endmark fx = true -> stream_ok st -> ds_seq O -> enc_seq O ->
+  (fin = true -> is_ctrl st (a ++ b) = false) ->
+  uequiv (uni_full fx O st c (a ++ b) fin)
+         (ubind (uni_full fx O st c a false) (fun st1 c1 => uni_full fx O st1 c1 b fin)).
+Proof. exact uni_two. Qed.
+Print Assumptions chunking_independent_uni.
+
+Theorem uni_is_receive_stream_data :
+  forall fx O c0 sid data fin, is_uni sid = true ->
+  receive_stream_data0 fx O c0 sid data fin =
+  let '(s0, c) := get_or_create c0 sid in
+  match uni_full fx O s0 c data fin with
+  | UF e st' c' unb => unblock fx O (set_streams c' (put_stream st' (c_streams c'))) unb e
+  | UFErr k c' => SErr k c'
+  | UFExn k => SExn k
+  end.
+Proof. exact recv0_uni_full. Qed.
+Print Assumptions uni_is_receive_stream_data.
+
+(* ... and the exception: on the control stream the close CODE depends on whether the FIN comes with the last bytes
+   (the code checks "stream_ended" before it parses the frames of that delivery); both deliveries close the connection. *)
+Theorem chunking_independent_uni_control_fin_refuted :
+  run all_fixed (conn_init false true) [(QStream 3 [0; 13; 1; 1] true, o_quiet)] = [Closed H3_CLOSED_CRITICAL_STREAM] /\
+  run all_fixed (conn_init false true) [(QStream 3 [0; 13; 1; 1] false, o_quiet); (QStream 3 [] true, o_quiet)]
+    = [Closed H3_MISSING_SETTINGS; Events []].
+Proof. exact ctrl_fin_refuted. Qed.
+Print Assumptions chunking_independent_uni_control_fin_refuted.
+
+(* streams the decoder reports as unblocked (after an encoder-stream delivery) are resumed one after the other: the ids
+   of two deliveries concatenated = the two resume passes in sequence (same oracle) *)
+Theorem unblocked_streams_sequential :
+  forall fx O l1 l2 c evs,
+  unblock fx O c (l1 ++ l2) evs =
+  match unblock fx O c l1 evs with SVal e c' => unblock fx O c' l2 e | r => r end.
+Proof. exact unblock_app. Qed.
+Print Assumptions unblocked_streams_sequential.
+
+(* blocked / resume, one concrete exchange only (the general statement is NOT proved, see docs/C14.md) *)
+Theorem blocked_resume_example_agrees :
+  events_all (run all_fixed (conn_init true true)
+     [(QStream 0 [1; 1; 0; 0; 2; 97] false, o_wait); (QStream 0 [98] true, o_wait); (QStream 7 [2; 1] false, o_arrived)])
+  = [AHeaders 0 None 1; AByte 0 None 97; AByte 0 None 98; AEnd 0] /\
+  events_all (run all_fixed (conn_init true true)
+     [(QStream 7 [2; 1] false, oracle1); (QStream 0 [1; 1; 0; 0; 2; 97; 98] true, oracle1)])
+  = [AHeaders 0 None 1; AByte 0 None 97; AByte 0 None 98; AEnd 0].
+Proof. exact blocked_resume_example. Qed.
+Print Assumptions blocked_resume_example_agrees.
+
+(* Lemmas used on the way (kept; they were the partial result of the first round), proved for ALL inputs,
    for the model of the patched code (fx_trunc, fx_endmark).
    (1) a delivery x that leaves the parser where it was (it stops inside a frame header or inside the payload of a
        non-DATA frame, nothing consumed) followed by b gives the same events and state as delivering x ++ b; *)
